@@ -8,7 +8,7 @@ from vt import core, gen
 from vt.core import Checker, lib, dense, dense_abs, DT, UNIT, fro
 from vt.props import c11, c12
 
-RULE = ("The C++ extension is compiled from the working tree's cpp/ sources (cache keyed by their hash) and loaded next "
+RULE = ("[amen_solve cases include C12's complex128 systems: the call with use_cpp=True has to return and meet the same bound.] The C++ extension is compiled from the working tree's cpp/ sources (cache keyed by their hash) and loaded next "
         "to the Python implementation in the same process. Cases come from C12's generator (SPD / Laplacian / diagonally "
         "dominant systems x preconditioner None/'c'/'r' x max_full x x0 x eps x seed) for amen_solve and from C11's "
         "generator (orders 1-6, both spectra, complex128 / float32 / complex64 included, initial guess) for fast_matvec. Oracle per case, for "
